@@ -409,7 +409,13 @@ class Renderer:
             out = {"type": "map", "values": self.render(node["values"], ns)}
             return self.decorate(out)
         if k == "union":
-            return [self.render(b, ns) for b in node["branches"]]
+            out = [self.render(b, ns) for b in node["branches"]]
+            kinds = [b["k"] for b in node["branches"]]
+            if "float" in kinds and "double" in kinds and kinds.index("float") < kinds.index("double") and d.p(0.5):
+                j = kinds.index("double")
+                if out[j] == "double":
+                    out[j] = {"type": "double"}  # the float->double deferral must recognise every spelling
+            return out
         # named definitions
         full = node["name"]
         if full in self.defined:
@@ -692,6 +698,17 @@ class DataGen:
         ik = M.deref(item, self.table)["k"]
         if f.exotic_seqs and ik in ("int", "long", "float", "double") and d.p(0.05):
             return d.draw(st.binary(max_size=4))  # bytes is a non-string sequence of ints
+        if f.exotic_seqs and ik in ("int", "long", "float", "double") and d.p(0.06):
+            import array as _arr
+            code = d.choice(["d", "f", "i", "q", "b", "H"])
+            if code in ("d", "f"):
+                if ik in ("float", "double"):
+                    vals = [d.choice([0.0, 1.5, -2.25, 0.10000000149011612, 16777216.0, -0.0]) for _ in range(min(n, 6) or 1)]
+                    return _arr.array(code, vals)
+            else:
+                lim = {"i": 2**31 - 1, "q": 2**31 - 1 if ik == "int" else 2**62, "b": 127, "H": 65535}[code]
+                vals = [min(lim, d.choice([0, 1, lim, 64, 8192])) for _ in range(min(n, 6) or 1)]
+                return _arr.array(code, vals)
         items = [self.gen(item, budget - 1, in_union=False) for _ in range(n)]
         if f.exotic_seqs:
             w = d.i(20)
